@@ -1,7 +1,7 @@
 (** C09 — the normal form is a fixpoint, the same via JSON and YAML, and deterministic. *)
 From Coq Require Import String List Ascii Bool Arith ZArith Permutation.
 From GP Require Import Base.Sexp Model.Gv Model.Pipeline Model.Marshal Model.Reparse
-     Proofs.MarshalProofs Proofs.DeterminismProofs.
+     Proofs.MarshalProofs Proofs.DeterminismProofs Proofs.ReparseProofs.
 Import ListNotations.
 Local Open Scope string_scope.
 
@@ -41,4 +41,61 @@ Example empty_primary_alias_refuted :
   end = true.
 Proof. vm_compute. reflexivity. Qed.
 
+(** FIXPOINT (JSON leg), for every pipeline satisfying the structural side condition ... *)
+Theorem reparse_fixpoint : forall p, pipeline_fix_ok p ->
+  exists p' w', reparse_json p = Ok p' w' /\ mj_pipeline p' = mj_pipeline p.
+Proof. exact ReparseProofs.reparse_fixpoint. Qed.
+(** ... which every pipeline PARSED from a document with distinct keys and re-readable number tokens
+    satisfies, outside three explicit classes: an empty key / label next to a surviving alias (F17),
+    plugin sources on which canonicalisation is not idempotent (outside C17's domain), and typed steps
+    that fell back to unknown although their own mapping would select a known kind (malformed input) *)
+Theorem parse_result_fix_ok : forall g p w,
+  parse_doc g = Ok p w -> doc_ok g ->
+  no_empty_primary_with_alias p -> plugin_sources_canonical p -> no_fallback_unknown p ->
+  pipeline_fix_ok p.
+Proof. exact ReparseProofs.parse_result_fix_ok. Qed.
+(** parse, marshal, re-parse, marshal: the second marshalling equals the first (idempotent normal form) *)
+Theorem parse_marshal_reparse : forall g p w,
+  parse_doc g = Ok p w -> doc_ok g ->
+  no_empty_primary_with_alias p -> plugin_sources_canonical p -> no_fallback_unknown p ->
+  exists p' w', reparse_json p = Ok p' w' /\ mj_pipeline p' = mj_pipeline p.
+Proof. exact ReparseProofs.parse_marshal_reparse. Qed.
+
+(** every Marshal shape is accepted by the matching UnmarshalOrdered (the stand-alone decoders included) *)
+Theorem sig_roundtrip : forall s, unm_sig (gv_of_json (mj_sig s)) = Ok (Some s) 0.
+Proof. exact ReparseProofs.sig_roundtrip. Qed.
+Theorem cache_roundtrip : forall c, cache_fix_ok c ->
+  exists c', unm_cache (gv_of_json (mj_cache c)) = Ok (Some c') 0 /\ mj_cache c' = mj_cache c.
+Proof. exact ReparseProofs.cache_roundtrip. Qed.
+Theorem matrix_roundtrip : forall m, matrix_fix_ok m ->
+  exists m', unm_matrix (gv_of_json (mj_matrix m)) = Ok (Some m') 0 /\ mj_matrix m' = mj_matrix m.
+Proof. exact ReparseProofs.matrix_roundtrip. Qed.
+Theorem plugins_roundtrip : forall ps, Forall plugin_fix_ok ps ->
+  exists ps', unm_plugins (gv_of_json (JArr (map mj_plugin ps))) = Ok ps' 0 /\ map mj_plugin ps' = map mj_plugin ps.
+Proof. exact ReparseProofs.plugins_roundtrip. Qed.
+Theorem command_roundtrip : forall c, cmd_ok c ->
+  exists c', unm_command (gmap (members (mj_command c))) = Ok c' 0 /\ mj_command c' = mj_command c.
+Proof. exact ReparseProofs.command_roundtrip. Qed.
+Theorem step_roundtrip : forall s, step_fix_ok s ->
+  forall f, gv_depth (gv_of_json (mj_step s)) <= f ->
+  exists s' w, unm_step f (gv_of_json (mj_step s)) = Ok s' w /\ mj_step s' = mj_step s.
+Proof. exact ReparseProofs.step_roundtrip. Qed.
+(** free-form values re-read to themselves when their number tokens do *)
+Theorem gv_json_of_json : forall j, json_stable j -> gv_json (gv_of_json j) = j.
+Proof. exact ReparseProofs.gv_json_of_json. Qed.
+
+(** the hypotheses are satisfiable and each is needed: see Proofs/ReparseProofs.v demo_ok, demo_fixpoint,
+    empty_primary_alias_counterexample, unstable_number_counterexample, plugin_source_counterexample,
+    fallback_unknown_counterexample (all by vm_compute) *)
+
 Print Assumptions inline_friendly_deterministic.
+Print Assumptions reparse_fixpoint.
+Print Assumptions parse_result_fix_ok.
+Print Assumptions parse_marshal_reparse.
+Print Assumptions sig_roundtrip.
+Print Assumptions cache_roundtrip.
+Print Assumptions matrix_roundtrip.
+Print Assumptions plugins_roundtrip.
+Print Assumptions command_roundtrip.
+Print Assumptions step_roundtrip.
+Print Assumptions gv_json_of_json.
